@@ -154,7 +154,8 @@ var fixtureKinds = []string{"ing", "mm", "vs", "vsvsr", "ts", "vspol"}
 // (group); targets = the objects whose leaves are mutated.
 func genFixture(r *vh.Rng, kind string, plus bool) (*world, []any) {
 	w := &world{deps: map[string]string{}}
-	w.flags = Flags{Plus: plus, HTTP2: true, TLSPassthrough: true, DynWeights: r.Bool(), Resolver: true}
+	w.flags = Flags{Plus: plus, HTTP2: true, TLSPassthrough: true, Resolver: true}
+	_ = r.Bool() // (keeps the random stream of the fixtures stable)
 	w.allOK = true
 	genDeps(r.Fork(1), w)
 	w.gc = genGC()
@@ -196,7 +197,7 @@ func genFixture(r *vh.Rng, kind string, plus bool) (*world, []any) {
 
 // The fixtures do NOT depend on the seed of the run: the set of (leaf, payload) pairs, and therefore the
 // set of known findings it hits on an unchanged tree, is the same for every VERIF_SEED.
-var fixtureSeeds = []uint64{1, 2}
+var fixtureSeeds = []uint64{1}
 
 type enumEntry struct {
 	fseed uint64
